@@ -21,8 +21,12 @@ def build_tree(t: dict, *, comments=None, source: str = "", custom_names: bool =
                 nm.z: np.array(t["z"], dtype=np.float32), nm.r: np.array(t["r"], dtype=np.float32),
                 nm.pid: np.array(t["pid"], dtype=np.int32)}
         return Tree(n, names=nm, comments=list(comments) if comments is not None else None, source=source, **cols)
+    # extra per-node columns ride along under the model keys `x_<name>` (float32, or int64 for integer lists)
+    extra = {k[2:]: np.array(v, dtype=np.int64 if all(isinstance(e, int) for e in v) else np.float32)
+             for k, v in t.items() if k.startswith("x_")}
     return Tree(
         n,
+        **extra,
         id=np.arange(n, dtype=np.int32),
         type=np.array(t["type"], dtype=np.int32),
         x=np.array(t["x"], dtype=np.float32),
